@@ -17,7 +17,7 @@ MAX_VIOL_PER_TASK = 6
 MAX_VIOL_PRINTED = 12
 
 
-class Hang(Exception):
+class Hang(BaseException):
     """A guarded call did not finish within its wall-clock guard."""
 
 
